@@ -44,12 +44,17 @@ fn permute_args(a: &AppliedId, rng: &mut Rng, extra: &[u32]) -> AppliedId {
 }
 
 pub fn exec_snap(ops: Vec<Op>, seed: u64, per_op: bool) -> Case {
+    exec_snap_n::<()>(ops, seed, per_op)
+}
+
+/// the same with an analysis attached (its data changes make the rebuild queue analysis-only work next to the structural work)
+pub fn exec_snap_n<N: Analysis<Main> + Default + 'static>(ops: Vec<Op>, seed: u64, per_op: bool) -> Case {
     let sig = enc_sig(&Main::sig());
     let line_ops = enc_ops(&ops);
     let r = in_fresh_thread(move || {
         intern_names();
         let mut rng = Rng::new(seed);
-        let mut eg: EGraph<Main> = EGraph::default();
+        let mut eg: EGraph<Main, N> = EGraph::default();
         let mut tracked: Vec<AppliedId> = Vec::new();
         let mut early_tags: Vec<String> = Vec::new();
         for (k, op) in ops.iter().enumerate() {
@@ -333,6 +338,45 @@ pub fn run(ctx: &mut Ctx) {
         let (ops, _) = if rng.chance(1, 4) { (gen_chain(&mut rng), "chain") } else { gen_history(&mut rng) };
         let seed = rng.next();
         let per_op = ctx.param("per_op", 0) == 1;
-        ctx.emit(exec_snap(ops, seed, per_op));
+        // a quarter of the histories run with the min-size analysis attached
+        if rng.chance(1, 4) {
+            // half of them: several independent copies of "a small leaf is united with a bigger term `b`; `h(b)` improves when
+            // it is re-analysed; `k(h(b), a)` mentions both the improving class and the class that dies" — one rebuild has
+            // to do structural and analysis-only work on the same e-node, in whatever order the worklist hands it out
+            let ops = if rng.chance(1, 2) {
+                let sym = |x: String| ATerm { v: 16, fields: vec![CField::Lit(x)], children: vec![] };
+                let un = |v: usize, a: ATerm| ATerm { v, fields: vec![CField::App], children: vec![a] };
+                let bin = |v: usize, a: ATerm, b: ATerm| ATerm { v, fields: vec![CField::App, CField::App], children: vec![a, b] };
+                let copies = rng.range(3, 8);
+                let mut o: Vec<Op> = Vec::new();
+                let mut unions: Vec<Op> = Vec::new();
+                for j in 0..copies {
+                    let a = sym(format!("a{j}"));
+                    let big = match rng.below(3) {
+                        0 => bin(14, sym(format!("b{j}")), sym(format!("c{j}"))),
+                        1 => un(13, un(13, sym(format!("b{j}")))),
+                        _ => bin(4, un(13, sym(format!("b{j}"))), sym(format!("c{j}"))),
+                    };
+                    let p = un(13, big.clone());
+                    let gp = if rng.chance(1, 2) { bin(14, p.clone(), a.clone()) } else { bin(5, a.clone(), p.clone()) };
+                    let base = o.len();
+                    o.push(Op::Add(gp));
+                    o.push(Op::Add(a));
+                    o.push(Op::Add(big));
+                    if rng.chance(1, 2) {
+                        unions.push(Op::Union(base + 1, base + 2));
+                    } else {
+                        unions.push(Op::Union(base + 2, base + 1));
+                    }
+                }
+                o.extend(unions);
+                o
+            } else {
+                ops
+            };
+            ctx.emit(exec_snap_n::<crate::suites::ana::MinSize>(ops, seed, per_op));
+        } else {
+            ctx.emit(exec_snap(ops, seed, per_op));
+        }
     }
 }
